@@ -62,7 +62,7 @@ def evaluate_single(case):
 @st.composite
 def single_cases(draw):
     kind = draw(st.sampled_from(["partition", "partition", "pack", "pack", "cover", "oversize", "cbldm-invalid"]))
-    pres = ["list", "list", "array", "array", "dict-str", "dict-int", "names", "names-array"]
+    pres = ["list", "list", "array", "array", "dict-str", "dict-int", "names", "names-array", "dict-mixed"]
     if kind == "partition":
         case = draw(cases.partition_cases(presentations=pres, max_len=12))
     elif kind == "pack":
